@@ -484,6 +484,29 @@ class OpaqueV(Val):
         return "opaque<%s %s>" % (self.ty.split("::")[-1] if self.ty else "?", show_term(self.term))
 
 
+class LayoutV(Val):
+    """text emitted so far by a formatter, as one source-set per character position.
+    cells: tuple of frozensets of sources  ('lit', ch) | ('field', name) | ('blank',) | ('other', str);
+    ragged: the length is not the same on all paths (positions after the common prefix are unreliable)"""
+    __slots__ = ("cells", "ragged", "issues")
+    kind = "layout"
+
+    def __init__(self, cells=(), ragged=False, issues=()):
+        self.cells = tuple(cells)
+        self.ragged = ragged
+        self.issues = tuple(issues)
+
+    def append(self, n, srcs):
+        srcs = frozenset(srcs)
+        return LayoutV(self.cells + (srcs,) * n, self.ragged, self.issues)
+
+    def with_issue(self, issue):
+        return LayoutV(self.cells, self.ragged, self.issues + (issue,)) if issue not in self.issues else self
+
+    def __repr__(self):
+        return "layout<%d%s>" % (len(self.cells), " ragged" if self.ragged else "")
+
+
 class ClosureV(Val):
     __slots__ = ("body", "captures")
     kind = "closure"
@@ -681,6 +704,16 @@ def join(a, b):
         return OpaqueV(a.ty, ("phi", a.term, b.term), a.deps | b.deps)
     if k == "top":
         return Top(a.deps | b.deps, a.why or b.why)
+    if k == "layout":
+        n = min(len(a.cells), len(b.cells))
+        cells = tuple(x | y for x, y in zip(a.cells[:n], b.cells[:n]))
+        ragged = a.ragged or b.ragged or len(a.cells) != len(b.cells)
+        if len(a.cells) != len(b.cells):
+            longer = a.cells if len(a.cells) > len(b.cells) else b.cells
+            cells = cells + tuple(c | frozenset([("end",)]) for c in longer[n:])
+        if cells == a.cells and ragged == a.ragged and set(b.issues) <= set(a.issues):
+            return a
+        return LayoutV(cells, ragged, tuple(dict.fromkeys(a.issues + b.issues)))
     if k == "closure":
         if a.body == b.body:
             return ClosureV(a.body, [join(x, y) for x, y in zip(a.captures, b.captures)])
